@@ -38,6 +38,8 @@ structure Dgram where
 
 /-- Handler behaviours the harness can ask for (encoded in the request path). -/
 inductive Beh | pb | pbe | none | sep | empty | blk
+  | rst | rstc        -- the handler sets the reply's type to Reset (code 0.00 / code 4.04)
+  | ox | oc | oxc     -- like pb; the reply carries option numbers the library does not know (elective / critical / both)
   deriving Repr, DecidableEq
 
 /-- One arrival of a request and what the endpoint was observed to do in reaction. -/
